@@ -114,7 +114,7 @@ def run_shard(shard):
                 worst, wt = err, tol
         return worst <= wt, worst, wt
 
-    def check_callable(it, name, label, model, model2, fresh, call, arg_sets, numeric, nontrivial_test):
+    def check_callable(it, name, label, model, model2, fresh, call, arg_sets, numeric, nontrivial_test, bound=None):
         """call(m, *args) -> output.  arg_sets: list of argument tuples (arrays)."""
         base = chash(it.get("spec") or it.get("case") or name, it.get("bseed"), label)
 
@@ -152,6 +152,16 @@ def run_shard(shard):
             viol("jit.value", f"eqx.filter_jit result differs from the eager result by {err:.3g} (tol {tol:.3g})", {"args": [np.asarray(a) for a in a0]})
         else:
             rec.maxi("jit_err_over_tol", err / tol)
+        # ---- (1b) the FAQ's advice: eqx.filter_jit(obj.method) - the bound method itself, same oracle and tolerance
+        if bound is not None:
+            try:
+                jb = eqx.filter_jit(bound)(*a0)
+                rec.count("bound_method_jit_calls")
+                okb, errb, tolb = close(jb, e0, sens, xmag, numeric)
+                if not gated and not okb:
+                    viol("jit.bound_method", f"eqx.filter_jit(bound method) differs from the eager result by {errb:.3g} (tol {tolb:.3g})")
+            except Exception as e:  # noqa: BLE001
+                viol(f"jit.bound.{type(e).__name__}", f"eqx.filter_jit(bound method) raised {type(e).__name__}: {str(e)[:250]}")
         # ---- (3) repeat: bit equality
         j0b = jf(model, *a0)
         rec.count("repeat_comparisons")
@@ -265,20 +275,8 @@ def run_shard(shard):
             args = pts(dtag if m.startswith("transform") else ctag, nargs)
             call = (lambda mm, x, c, _m=m: getattr(mm, _m)(x, c))
             check_callable(it, name, m, b, b2, fresh, call, args, numeric,
-                           lambda e0, a0: bool(np.max(np.abs(flat(e0)[0] - np.asarray(a0[0]))) > 1e-9) if np.all(np.isfinite(flat(e0)[0])) else False)
-            # bound-method jit (the FAQ's advice): eqx.filter_jit(obj.method)
-            try:
-                x0, c0 = args[0]
-                jb = eqx.filter_jit(getattr(b, m))(x0, c0)
-                rec.count("bound_method_jit_calls")
-                e0 = getattr(b, m)(x0, c0)
-                okb, errb, tolb = close(jb, e0, 1e6, 1.0, numeric)
-                if not okb and errb == np.inf:
-                    rec.violation("jit.bound_method", f"{name}.{m}: eqx.filter_jit(bound method) returned different finiteness/shape than eager", it, ("init", 0.0), {})
-            except NotImplementedError:
-                pass
-            except Exception as e:  # noqa: BLE001
-                rec.violation(f"jit.bound.{type(e).__name__}", f"{name}.{m}: eqx.filter_jit(bound method) raised {type(e).__name__}: {str(e)[:250]}", it, ("init", 0.0), {})
+                           lambda e0, a0: bool(np.max(np.abs(flat(e0)[0] - np.asarray(a0[0]))) > 1e-9) if np.all(np.isfinite(flat(e0)[0])) else False,
+                           bound=getattr(b, m))
         if len(rec.samples) < 2 and it["origin"] == "random":
             rec.samples.append(jsonable({"structure": it.get("spec"), "clauses": ["jit(model arg) vs eager", "jit(bound method)", "repeat bits", "second model via same jit",
                                                                                  "vmap vs loop", "flatten", "serialise->fresh model"]}))
